@@ -915,6 +915,9 @@ class LinAnalysis:
             iv = self.ev(e["i"], st, fr)
             sz = f.T(e.get("t")).get("sz", 1) or 1
             if isinstance(pv, Ptr) and pv.region is not None and isinstance(iv, Lin):
+                own = st.env.get(("powner", pv.region.id))
+                if own is not None and iv.is_const() and iv.c == -1 and f.T(e.get("t")).get("k") == "record" and st.entails_eq(pv.off, Lin.const(0)):
+                    return ("o", own[0], own[1])
                 return MemLoc(pv.region, pv.off + iv.scale(sz), sz, pv.maybe_null)
             return None
         if k == "cast":
@@ -1242,6 +1245,9 @@ class LinAnalysis:
             elif isinstance(old, Ptr) and old.region is not None:
                 sz = f.T(f.pointee(e["e"].get("t"))).get("sz", 1) or 1
                 new = Ptr(old.region, old.off + Lin.const(d * sz), old.maybe_null)
+                own = st.env.get(("powner", old.region.id))
+                if d == -1 and own is not None and f.T(f.pointee(e["e"].get("t"))).get("k") == "record" and st.entails_eq(old.off, Lin.const(0)):
+                    new = ObjPtr(own[0], own[1], old.maybe_null)        # one header before the payload: the object itself
             self.store(loc, new, st, fr, e)
             return old if e.get("post") else new
         v = self.ev(e["e"], st, fr)
@@ -1276,6 +1282,11 @@ class LinAnalysis:
         if op in ("+", "-"):
             if isinstance(a, Ptr) and isinstance(b, Lin) and a.region is not None:
                 sz = self.ptr_elem(f, e["a"].get("t") if "a" in e else tid)
+                own = st.env.get(("powner", a.region.id))
+                if own is not None and op == "-" and b.is_const() and b.c == 1 and st.entails_eq(a.off, Lin.const(0)):
+                    pt = f.T(e["a"].get("t") if "a" in e else tid)
+                    if f.T(pt.get("to")).get("k") == "record":
+                        return ObjPtr(own[0], own[1], a.maybe_null)
                 return Ptr(a.region, a.off + (b.scale(sz) if op == "+" else -b.scale(sz)), a.maybe_null)
             if isinstance(b, Ptr) and isinstance(a, Lin) and op == "+" and b.region is not None:
                 sz = self.ptr_elem(f, e["b"].get("t"))
@@ -1369,6 +1380,43 @@ class LinAnalysis:
                     st.add(q.scale(m) + Lin.const(m - 1) - a)
                     return q
             return self.fresh_of_type(st, f, tid)
+        if op in ("&", "|") and (a.is_const() != b.is_const()):
+            x, c = (b, a.c) if a.is_const() else (a, b.c)
+            bf = self.bits_of(st, x)
+            if bf is not None:
+                km, kv = bf
+                if op == "&":
+                    if (c & ~km) == 0 and c >= 0:
+                        return self.conv(Lin.const(kv & c), st, f, tid)      # every tested bit is known
+                    r = self.fresh_of_type(st, f, tid)
+                    if isinstance(r, Lin) and len(r.t) == 1:
+                        nkm = km | (~c & 0xffffffff)
+                        st.env[("bits", list(r.t)[0])] = (nkm, kv & c & nkm)
+                        if st.entails(x):
+                            st.add(x - r)
+                            st.add(r)
+                        return r
+                else:
+                    r = self.fresh_of_type(st, f, tid)
+                    if isinstance(r, Lin) and len(r.t) == 1 and c >= 0:
+                        st.env[("bits", list(r.t)[0])] = (km | c, kv | c)
+                        self._or_bounds(st, x, c, r)
+                        return r
+            elif op == "|" and c >= 0:
+                r = self.fresh_of_type(st, f, tid)
+                if isinstance(r, Lin) and len(r.t) == 1:
+                    st.env[("bits", list(r.t)[0])] = (c, c)
+                    self._or_bounds(st, x, c, r)
+                    return r
+            elif op == "&" and c < 0:
+                # clearing bits: the cleared ones are known afterwards
+                r = self.fresh_of_type(st, f, tid)
+                if isinstance(r, Lin) and len(r.t) == 1:
+                    st.env[("bits", list(r.t)[0])] = (~c & 0xffffffff, 0)
+                    if st.entails(x):
+                        st.add(x - r)
+                        st.add(r)
+                    return r
         if op in ("&", "|", "^") and a.is_const() and b.is_const():
             v = a.c & b.c if op == "&" else (a.c | b.c if op == "|" else a.c ^ b.c)
             return self.conv(Lin.const(v), st, f, tid)
@@ -1388,6 +1436,23 @@ class LinAnalysis:
             r = self.fresh_of_type(st, f, tid)
             return r
         return self.fresh_of_type(st, f, tid)
+
+    def bits_of(self, st, x):
+        """(known mask, known value) of a value that is one symbol"""
+        if isinstance(x, Lin) and len(x.t) == 1 and x.c == 0 and list(x.t.values()) == [1]:
+            return st.env.get(("bits", list(x.t)[0]))
+        return None
+
+    def _or_bounds(self, st, x, c, r):
+        """r = x | c for c >= 0: r >= x, r >= c, and r stays below the power of two both are below"""
+        if st.entails(x):
+            st.add(r - x)
+            st.add(r - Lin.const(c))
+            for k in (8, 16, 32):
+                lim = (1 << k) - 1
+                if c <= lim and st.entails(Lin.const(lim) - x):
+                    st.add(Lin.const(lim) - r)
+                    break
 
     def ev_bin(self, e, st, fr):
         f = fr.f
@@ -1575,6 +1640,20 @@ class LinAnalysis:
             return self.assume(c["e"], truth, st, fr)
         if k == "un" and c.get("op") == "!":
             return self.assume(c["e"], not truth, st, fr)
+        if k == "bin" and c.get("op") == "&":
+            m = cval(c["b"]) if cval(c["b"]) is not None else cval(c["a"])
+            xe = c["a"] if cval(c["b"]) is not None else c["b"]
+            if m is not None and m > 0 and (m & (m - 1)) == 0:
+                x = self.ev(xe, st, fr)
+                if isinstance(x, Lin) and len(x.t) == 1 and x.c == 0 and list(x.t.values()) == [1]:
+                    sym = list(x.t)[0]
+                    km, kv = st.env.get(("bits", sym), (0, 0))
+                    if km & m:
+                        return [st] if bool(kv & m) == truth else []
+                    st.env[("bits", sym)] = (km | m, (kv | m) if truth else (kv & ~m))
+                    if truth:
+                        st.add(x - Lin.const(m))
+                    return [st] if st.feasible() else []
         if k == "bin":
             op = c["op"]
             if op in ("&&", "||"):
